@@ -100,6 +100,11 @@ def judge_request(net, origins, px, proxy, http1, http2, scheme, host, port_eff,
                 v("forward-target-not-the-url", f"{req.target!r} does not start with {want!r}", ctx)
             if tls_wanted:
                 v("tls-origin-forwarded-in-clear", f"{scheme} request forwarded through the proxy instead of tunnelled", ctx)
+            elif scheme != "http":
+                # only plain http is handed to the proxy in absolute form; everything else gets a stream of its own to
+                # exactly its host and port (CONNECT)
+                v("non-http-origin-forwarded", f"{scheme} request forwarded through the proxy ({req.target!r}) instead of "
+                  f"tunnelled to {host}:{port_eff}", ctx)
         else:
             conn = [c for c in px.connects if c["tr"] == req.tr]
             uh = f"[{host}]" if ":" in host else host
